@@ -160,6 +160,7 @@ type IfCfg struct {
 	Metric  uint32 `json:"metric"`
 	Index   uint64 `json:"index"`
 	Net     uint32 `json:"net"` // local /31: Net is the local address, Net|1 the neighbor's
+	Extra   int    `json:"extra,omitempty"` // additional /24 addresses on the interface
 }
 
 type Cfg struct {
@@ -255,7 +256,11 @@ func (h *H) ifc(name string) IfCfg {
 }
 
 func (h *H) addrs(ic IfCfg) []*bnet.Prefix {
-	return []*bnet.Prefix{bnet.NewPfx(bnet.IPv4(ic.Net&^1), 31).Ptr()}
+	ps := []*bnet.Prefix{bnet.NewPfx(bnet.IPv4(ic.Net&^1), 31).Ptr()}
+	for i := 0; i < ic.Extra; i++ {
+		ps = append(ps, bnet.NewPfx(bnet.IPv4(0xac100001+uint32(ic.Index&0xff)<<16+uint32(i)<<8), 24).Ptr())
+	}
+	return ps
 }
 
 // CircuitID is the extended local circuit id bio-rd uses on the interface.
@@ -385,28 +390,45 @@ func AdjKey(as []Adj) string {
 	return b.String()
 }
 
+// FlagSet is a set of interface names (SRM or SSN flags of an LSDB entry).
+type FlagSet []string
+
+func (f FlagSet) Has(name string) bool {
+	for _, n := range f {
+		if n == name {
+			return true
+		}
+	}
+	return false
+}
+
 // LSPState is one LSDB entry with its flags.
 type LSPState struct {
 	ID       LSPID
 	Seq      uint32
 	Lifetime uint16
 	Checksum uint16
-	SRM, SSN map[string]bool
+	SRM, SSN FlagSet
+}
+
+// LSDBList returns a consistent snapshot of the LSDB (with flags) sorted by LSP ID.
+func (h *H) LSDBList() []LSPState {
+	es := server.VerifLSDBFlags(h.S)
+	out := make([]LSPState, len(es))
+	for i, e := range es {
+		id := MkLSPID(SysID(e.LSPID.SystemID), e.LSPID.PseudonodeID, e.LSPID.LSPNumber)
+		out[i] = LSPState{ID: id, Seq: e.SequenceNumber, Lifetime: e.RemainingLifetime, Checksum: e.Checksum, SRM: e.SRM, SSN: e.SSN}
+	}
+	return out
 }
 
 // LSDB returns a consistent snapshot of the LSDB (with flags) keyed by LSP ID.
 func (h *H) LSDB() map[LSPID]LSPState {
-	out := map[LSPID]LSPState{}
-	for _, e := range server.VerifLSDBFlags(h.S) {
+	es := server.VerifLSDBFlags(h.S)
+	out := make(map[LSPID]LSPState, len(es))
+	for _, e := range es {
 		id := MkLSPID(SysID(e.LSPID.SystemID), e.LSPID.PseudonodeID, e.LSPID.LSPNumber)
-		st := LSPState{ID: id, Seq: e.SequenceNumber, Lifetime: e.RemainingLifetime, Checksum: e.Checksum, SRM: map[string]bool{}, SSN: map[string]bool{}}
-		for _, n := range e.SRM {
-			st.SRM[n] = true
-		}
-		for _, n := range e.SSN {
-			st.SSN[n] = true
-		}
-		out[id] = st
+		out[id] = LSPState{ID: id, Seq: e.SequenceNumber, Lifetime: e.RemainingLifetime, Checksum: e.Checksum, SRM: e.SRM, SSN: e.SSN}
 	}
 	return out
 }
